@@ -1,5 +1,5 @@
 """C15: notation does not change meaning (sugar, layout, simplifier)."""
-import os, sys, json, random
+import binascii, os, sys, json, random
 import common, tlc, zw, engine, variants
 
 PID = "C15"
@@ -17,23 +17,29 @@ def leaves_value(a):
 
 
 SPLICE_LIMIT = 255
-TOKTEXT = {"Q": '"', "PL": "%(", "PR": "%)", "L": "(", "R": ")", "X": "1"}
+TOKTEXT = {"Q": '"', "PL": "%(", "PR": "%)", "L": "(", "R": ")", "X": "1", "N": "\n", "BQ": '\\"', "BSQ": '\\\\"'}
 
 
 def lexer_language(vd, drv, wd, tier):
     """tla/Lexer.tla: the state machine of STRING / STRING_EMBEDDED accepts exactly the documented language of
     string literals with embedded programs (TLC, all token sequences up to the bound); the sequences are replayed
     on the real parser: verdict against the language, parse tree against the segmentation of the model."""
-    runs = [(6, ["Q", "PL", "PR", "L", "R", "X"]), (9, ["Q", "PL", "PR", "R"])]
+    runs = [(6, ["Q", "PL", "PR", "L", "R", "X"]), (9, ["Q", "PL", "PR", "R"]), (6, ["Q", "PL", "PR", "N", "X"]), (6, ["Q", "PL", "PR", "BQ", "BSQ", "R"])]
     if tier == "thorough":
-        runs = [(7, ["Q", "PL", "PR", "L", "R", "X"]), (10, ["Q", "PL", "PR", "R"]), (8, ["Q", "PL", "PR", "L", "R"])]
+        runs = [(7, ["Q", "PL", "PR", "L", "R", "X"]), (10, ["Q", "PL", "PR", "R"]), (8, ["Q", "PL", "PR", "L", "R"]),
+                (7, ["Q", "PL", "PR", "N", "X"]), (7, ["Q", "PL", "PR", "BQ", "BSQ", "R"]), (8, ["Q", "PL", "PR", "BSQ", "R"])]
     # non-vacuity: without the reset of in_string at "%(" the theorem fails
-    m = tlc.run_tlc("MCLexer", constants={"MaxLen": 9, "NoReset": True, "SpliceLimit": SPLICE_LIMIT, "Tok": ["Q", "PL", "PR", "R"]}, workers=1, timeout=900, heap="8g")
+    m = tlc.run_tlc("MCLexer", constants={"MaxLen": 9, "NoReset": True, "Pinned": "none", "SpliceLimit": SPLICE_LIMIT, "Tok": ["Q", "PL", "PR", "R"]}, workers=1, timeout=900, heap="8g")
     if "Assumption" not in m.out and "assumption" not in m.out:
         raise common.ToolError("Lexer.tla: the NoReset mutant is not caught\n" + m.out[-1500:])
+    # ... nor without the copying of newlines, nor without the escaped backslash (the states before two repairs)
+    for pin in ("dropnl", "nopair"):
+        m = tlc.run_tlc("MCLexer", constants={"MaxLen": 3, "NoReset": False, "Pinned": pin, "SpliceLimit": SPLICE_LIMIT, "Tok": ["Q", "PL", "N"]}, workers=1, timeout=900, heap="4g")
+        if "Assumption" not in m.out and "assumption" not in m.out:
+            raise common.ToolError("Lexer.tla: the mutant %s is not caught\n" % pin + m.out[-1500:])
     # the nesting limit, where the bound of the model reaches it: both layers agree for limits 1 and 2
     for lim in (1, 2):
-        m = tlc.run_tlc("MCLexer", constants={"MaxLen": 9, "NoReset": False, "SpliceLimit": lim, "Tok": ["Q", "PL", "PR", "X"]}, workers=1, timeout=900, heap="8g")
+        m = tlc.run_tlc("MCLexer", constants={"MaxLen": 9, "NoReset": False, "Pinned": "none", "SpliceLimit": lim, "Tok": ["Q", "PL", "PR", "X"]}, workers=1, timeout=900, heap="8g")
         if not m.ok:
             if "ssumption" in m.out:
                 vd.observe("model:lexer: mechanism and language differ at splice limit %d" % lim, {"output": m.out[-3000:]})
@@ -42,7 +48,7 @@ def lexer_language(vd, drv, wd, tier):
     vecs = []
     for n, tok in runs:
         out = os.path.join(wd, "lex-%d-%d.ndjson" % (n, len(tok)))
-        r = tlc.run_tlc("LexerGen", constants={"MaxLen": n, "NoReset": False, "SpliceLimit": SPLICE_LIMIT, "Tok": tok, "OutFile": out, "Shard": 0, "NShards": 1},
+        r = tlc.run_tlc("LexerGen", constants={"MaxLen": n, "NoReset": False, "Pinned": "none", "SpliceLimit": SPLICE_LIMIT, "Tok": tok, "OutFile": out, "Shard": 0, "NShards": 1},
                         workers=1, timeout=1500, heap="12g")
         if not r.ok or not os.path.exists(out):
             if "ssumption" in r.out:
@@ -72,7 +78,7 @@ def lexer_language(vd, drv, wd, tier):
             continue
         if v["ok"]:
             want = [engine.render_tree(v["tree"]), engine.render_tree(v["stree"])]
-            if r.get("tree", "").split("\n") == want:
+            if r.get("tree", "") == "\n".join(want):
                 vd.cov["traces_validated_against_impl"] += 1
             else:
                 vd.drift.append("parse tree of `%s' differs from tla/LexerGen.tla: %s vs %s" % (txt, r.get("tree"), want))
@@ -198,6 +204,25 @@ def run(tier):
                        {"kind": kind, "base": btxt, "variant": txt, "base_result": b, "variant_result": r})
         elif b.get("status") == "ok" and len(b["results"]) > 0:
             nontriv.add((gi, kind))
+    # comments inside a splice whose text has a bracket or %): the lexer finds the end of a splice by counting
+    # brackets over the raw text and does not know comments (known finding; comments without such characters,
+    # and those outside of splices, are covered by the layout variants above)
+    ccmds, cmeta = [], []
+    for base, ins in (('"%( 1 @@ %)"', "1"), ('1 "%( @@ 2 add %)"', "3"), ('"a%( [1, @@ 2] %)b"', "a[1, 2]b")):
+        for com in ("/* ) */", "/* ( */", "// )\n", "# (\n", "/* ] */", "/* { */", "/* %) */", "# %)\n", "/* \" ) */", "/* c */", "# c\n", "// c\n"):
+            txt = base.replace("@@", com)
+            ccmds.append("\t".join(["run", str(len(ccmds)), "max=50", zw.hexq(txt)])); cmeta.append((txt, ins, com))
+    cby = {r.get("id"): r for r in zw.run_driver(os.path.join(bdir, "bin", "zwdrv"), ccmds, wd, tag="splicecomments")}
+    for i, (txt, want, com) in enumerate(cmeta):
+        vd.cov["evaluations"] += 1
+        r = cby.get(str(i)) or {}
+        got = None
+        if r.get("status") == "ok" and len(r["results"]) == 1 and r["results"][0][-1]["t"] == "str":
+            got = binascii.unhexlify(r["results"][0][-1]["hex"]).decode()
+        if got != want:
+            special = any(c in com for c in "()[]{}") or "%)" in com
+            vd.observe(("comment with a bracket or %%) inside a splice: `%s'" if special else "comment inside a splice: `%s'") % txt.replace("\n", "\\n"),
+                       {"program": txt, "expected": want, "observed": r})
     vd.cov["distinct_nontrivial"] = len(nontriv)
     vd.sample({"base": meta[0][3], "variant": meta[3][3], "kind": meta[3][1]})
     vd.sample({"base": meta[0][3], "variant": meta[-1][3], "kind": meta[-1][1]})
